@@ -1235,7 +1235,10 @@ theorem C15_collapse_midpoint_interior (cfg : Cfg Val) (m m' : Map Val) (e v : N
      m'.β 2 (m.β 2 (m.β 1 (m.β 2 e))) = m.β 2 (m.β 0 (m.β 2 e))) ∧
     (∀ i x, x ∉ [e, m.β 2 e, m.β 1 e, m.β 0 e, m.β 1 (m.β 2 e), m.β 0 (m.β 2 e), m.β 2 (m.β 1 e), m.β 2 (m.β 0 e),
       m.β 2 (m.β 1 (m.β 2 e)), m.β 2 (m.β 0 (m.β 2 e))] → m'.β i x = m.β i x) ∧
-    (∀ x, x ∉ [e, m.β 2 e, m.β 1 e, m.β 0 e, m.β 1 (m.β 2 e), m.β 0 (m.β 2 e)] → m'.unused x = true → m.unused x = true) := by
+    (∀ x, x ∉ [e, m.β 2 e, m.β 1 e, m.β 0 e, m.β 1 (m.β 2 e), m.β 0 (m.β 2 e)] → m'.unused x = true → m.unused x = true) ∧
+    (∀ x, x ∉ [e, m.β 2 e, m.β 1 e, m.β 0 e, m.β 1 (m.β 2 e), m.β 0 (m.β 2 e)] →
+      m'.β 0 x = m.β 0 x ∧ m'.β 1 x = m.β 1 x) ∧ m'.n = m.n ∧
+    (∀ x, x ∉ [e, m.β 2 e, m.β 1 e, m.β 0 e, m.β 1 (m.β 2 e), m.β 0 (m.β 2 e)] → m'.unused x = m.unused x) := by
   have hn := he.2.1
   rw [C15_collapse_guards cfg m.n e m (fun i d hi hd => (hwf.toSized.okβ i d).2 ⟨hi, hd⟩)
     (fun i d hi hd => hwf.range i hi d hd) hn] at h
@@ -1281,7 +1284,7 @@ theorem C15_collapse_midpoint_interior (cfg : Cfg Val) (m m' : Map Val) (e v : N
     rfl gl (hwf.inv10 e hn hb) rfl gr (hwf.inv10 _ hr hd)
     (hwf.inv01 e hn a0) (by rw [← gl]; exact hwf.inv01 _ ha (by rw [gl]; exact hb)) rfl
     (hwf.inv01 _ hr c0) (by rw [← gr]; exact hwf.inv01 _ hc (by rw [gr]; exact hd)) rfl
-  obtain ⟨pre, ⟨ze, zr, za, zb, zc, zd⟩, glue, frame, _⟩ := ev
+  obtain ⟨pre, ⟨ze, zr, za, zb, zc, zd⟩, glue, frame, frame01⟩ := ev
   have J0 : InvJ m.n m.u m := ⟨hwf, rfl, hwf.usz⟩
   obtain ⟨J, hβ, hu⟩ := trj_midpoint (n := m.n) (u := m.u) cfg hr0 (fun _ => Lb) (fun _ => Le) (fun _ => La)
     (fun _ => Ld) (fun _ => Lr) (fun _ => Lc) m m' vid J0 pre r1
@@ -1355,13 +1358,22 @@ theorem C15_collapse_midpoint_interior (cfg : Cfg Val) (m m' : Map Val) (e v : N
     simp only [midU, halfMidU, rd_wr, size_wr]
     simp only [List.mem_cons, List.mem_nil_iff, or_false] at hx
     rcases hx with rfl | rfl | rfl | rfl | rfl | rfl <;> simp [hxn]
-  refine ⟨hwf', fun x hx => ⟨setf x hx, zero x hx⟩, ?_, ?_, ?_⟩
+  refine ⟨hwf', fun x hx => ⟨setf x hx, zero x hx⟩, ?_, ?_, ?_, ?_, J.n_eq, ?_⟩
+  rotate_right
+  · intro x hx
+    simp only [List.mem_cons, List.mem_nil_iff, not_or, or_false] at hx
+    obtain ⟨x1, x2, x3, x4, x5, x6⟩ := hx
+    unfold Map.unused
+    rw [hu]
+    simp only [midU, halfMidU, rd_wr]
+    simp [Ne.symm x1, Ne.symm x2, Ne.symm x3, Ne.symm x4, Ne.symm x5, Ne.symm x6]
   · rw [hβ]; exact glue
   · intro i x hx; rw [hβ]; exact frame i x hx
   · intro x hx hxu
     rcases flagged x hxu with hm | hm
     · exact absurd hm hx
     · exact hm
+  · intro x hx; rw [hβ]; exact frame01 x hx
 
 /-- the hypotheses of `C15_collapse_midpoint_interior` hold for `collapse_edge(26)` on the 2 x 2 grid after one inner
     cut (`cutGrid`, the mesh of finding D15d: the position of the resulting vertex is wrong there, the topology is not) -/
